@@ -268,8 +268,14 @@ def build(cls, kw, w=None, rec=None):
 # executors
 
 
+_TRACING = [False]
+
+
 def _idx(rec, key="idx"):
-    return lib()["jnp"].asarray(np.asarray(rec[key], dtype=np.int64))
+    """Index arrays are static data: a jnp array in eager mode (as in the documentation), a concrete
+    numpy array inside a trace (jnp.asarray inside jit would stage it into a tracer)."""
+    a = np.asarray(rec[key], dtype=np.int64)
+    return a if _TRACING[0] else lib()["jnp"].asarray(a)
 
 
 def run_root(w, rec):
@@ -491,6 +497,7 @@ def exec_step(w, rec, i):
     w.step = i
     ops = operands(rec)
     check = w.traced is None
+    _TRACING[0] = not check
     before = {}
     snaps = {}
     if check:
